@@ -33,6 +33,7 @@ type gcSub struct {
 	CancelAt    int    // or in phase: 1 concurrently with the publishers, 2 after them (0 = never)
 	Decorators  int    // MessageTransformSubscriberDecorators in front of the Pub/Sub
 	StopReading bool   // the consumer stops reading after CancelAfter receipts instead of cancelling
+	BgCtx       bool   // Subscribe is called with a context that can never be cancelled (values on top of context.Background())
 }
 
 type gcPub struct {
@@ -244,6 +245,9 @@ func (x *gcRunner) publishCtx(pname, topic string, n int, batch bool, deadCtx bo
 
 func (x *gcRunner) subscribe(s gcSub) {
 	ctx, cancel := context.WithCancel(context.Background())
+	if s.BgCtx {
+		ctx, cancel = context.Background(), func() {}
+	}
 	ctx = context.WithValue(ctx, gcMarker{}, s.Name)
 	ctx = verifhook.WithName(ctx, x.prefix+s.Name)
 	cnt := new(int32)
@@ -424,7 +428,7 @@ func (x *gcRunner) consume(s gcSub, ch <-chan *message.Message, cnt *int32, canc
 		}
 		x.mu.Unlock()
 		mctx := msg.Context()
-		leakBound := 3 * time.Second
+		leakBound := time.Second
 		if s.Behav == "stall2" {
 			leakBound = 800 * time.Millisecond // (the next message is held for 1600 ms: the context has to end because of the Ack, not because of later deliveries)
 		}
@@ -771,6 +775,8 @@ func (x *gcRunner) body() (gateReached bool) {
 		}
 	}
 	x.waitIdle(40*time.Millisecond, 3*time.Second)
+	// the context of every delivery that was acked has ended by now, or is reported (ctxleak) within its bound
+	<-waitOr(waitWG(&x.leakWg), 1500*time.Millisecond)
 	allReturned := false
 	select {
 	case <-pubsDone:
